@@ -29,6 +29,11 @@ pub enum Call {
     Insert(String, String),
     InsertIfAbsent(String, String),
     Extend(Vec<(String, String)>),
+    /// `TypeGeneratorSettings::substitute(from, to)` - the settings builder's way to add a rule (valid pairs only:
+    /// it unwraps)
+    BuilderSubstitute(String, String),
+    /// `TypeGeneratorSettings::add_derives_for_all`
+    BuilderDerivesAll(Vec<String>),
 }
 
 const P: &str = "p::a::P";
@@ -87,6 +92,11 @@ pub fn alphabet() -> Vec<Call> {
     v.push(Call::Extend(vec![a[9].clone(), a[1].clone()]));
     v.push(Call::Extend(vec![a[2].clone(), a[10].clone(), a[4].clone()]));
     v.push(Call::Extend(vec![]));
+    // the same accumulators reached through the TypeGeneratorSettings builder
+    v.push(Call::BuilderSubstitute(P.into(), "::t::X".into()));
+    v.push(Call::BuilderSubstitute("p::a::P<A>".into(), "::t::Y<A>".into()));
+    v.push(Call::BuilderSubstitute(Q.into(), "crate::Z".into()));
+    v.push(Call::BuilderDerivesAll(vec![D2.into()]));
     v
 }
 
@@ -143,11 +153,11 @@ impl Model {
             m.entry(squash(p)).or_default().extend(xs.iter().map(|x| squash(x)));
         };
         match c {
-            Call::AllDerives(d) => self.all_d.extend(d.iter().map(|x| squash(x))),
+            Call::AllDerives(d) | Call::BuilderDerivesAll(d) => self.all_d.extend(d.iter().map(|x| squash(x))),
             Call::AllAttrs(a) => self.all_a.extend(a.iter().map(|x| squash(x))),
             Call::ForDerives(p, d, rec) => ins(if *rec { &mut self.rec_d } else { &mut self.spec_d }, p, d),
             Call::ForAttrs(p, a, rec) => ins(if *rec { &mut self.rec_a } else { &mut self.spec_a }, p, a),
-            Call::Insert(s, t) => {
+            Call::Insert(s, t) | Call::BuilderSubstitute(s, t) => {
                 if let Some(e) = pair_error(s, t) {
                     return Expected::Err(e);
                 }
@@ -222,6 +232,18 @@ impl Real {
             Call::Insert(s, t) => {
                 let t = absolute_path(parse_path(t)).map_err(|e| kind_name(&e.kind).to_string())?;
                 self.subs.insert(src_path(s), t).map_err(|e| kind_name(&e.kind).to_string())?
+            }
+            Call::BuilderSubstitute(s, t) => {
+                let mut st = scale_typegen::TypeGeneratorSettings::default();
+                st.substitutes = std::mem::replace(&mut self.subs, TypeSubstitutes::new());
+                st = st.substitute(src_path(s), parse_path(t));
+                self.subs = st.substitutes;
+            }
+            Call::BuilderDerivesAll(d) => {
+                let mut st = scale_typegen::TypeGeneratorSettings::default();
+                st.derives = std::mem::replace(&mut self.derives, DerivesRegistry::new());
+                st = st.add_derives_for_all(d.iter().map(|s| parse_path(s)));
+                self.derives = st.derives;
             }
             Call::InsertIfAbsent(s, t) => {
                 let t = absolute_path(parse_path(t)).map_err(|e| kind_name(&e.kind).to_string())?;
